@@ -93,12 +93,16 @@ def op_apodize(a, dim, kind, kwargs, out=1):
     from dnplab.math import window as W
     c = coord_of(a, dim)
     try:
-        w = getattr(W, kind)(c, **{k: float(Fraction(v)) for k, v in kwargs.items()})
+        with np.errstate(all="ignore"):
+            w = getattr(W, str(kind).lower())(c, **{k: float(Fraction(v)) for k, v in kwargs.items()})
+        if not np.all(np.isfinite(w)):
+            return None     # overflow / 0/0 in the window itself: outside the exact model
         w = glist(w)
     except Exception:
         w = []
     return {"op": "proc", "f": "apodize", "obj": a["id"], "out": out,
-            "kw": {"dim": dim, "kind": kind, "kwargs": kwargs, "kwkeys": list(kwargs.keys()), "w": w, "valid": window_kinds()}}
+            "kw": {"dim": dim, "kind": kind, "kwargs": kwargs, "kwkeys": sorted(["kind"] + list(kwargs.keys())), "w": w,
+                   "valid": window_kinds()}}
 
 
 def op_phase(a, dim, p0, p1, out=1):
